@@ -89,6 +89,7 @@ type pathCtx struct {
 	gateTerms     []string
 	schedFill     func()
 	opaqueItoa    bool
+	hostTerms     []string // host terms whose host_name matters for rendering real URLs
 }
 
 func newPathCtx(run *Run, sol *solver, prefix []int32) *pathCtx {
@@ -466,6 +467,10 @@ func (p *pathCtx) model() (map[string]interface{}, error) {
 	for _, l := range p.litOrder {
 		add(p.lits[l])
 	}
+	for _, h := range p.hostTerms {
+		add(h)
+		add("(host_name " + h + ")")
+	}
 	sched, _ := tape["schedule"].([]interface{})
 	for _, g := range sched {
 		if m, ok := g.(map[string]interface{}); ok {
@@ -519,9 +524,20 @@ func (p *pathCtx) model() (map[string]interface{}, error) {
 		classIdx[c] = len(classIdx)
 		return classIdx[c]
 	}
+	// a host whose host_name is another atom is rendered with a port
+	hostnameOf := map[string]string{}
+	for _, h := range p.hostTerms {
+		hostnameOf[vals[h]] = vals["(host_name "+h+")"]
+	}
 	hostName := func(hc string) string {
 		if l, ok := classLit[hc]; ok && l != "" {
 			return l
+		}
+		if hn, ok := hostnameOf[hc]; ok && hn != hc {
+			if l, ok := classLit[hn]; ok && l != "" {
+				return l + ":8443"
+			}
+			return fmt.Sprintf("h%d.example:8443", idx(hn))
 		}
 		return fmt.Sprintf("h%d.example", idx(hc))
 	}
